@@ -1,3 +1,294 @@
-import PybtexModel.Model.Basic
+/-
+C08 — rich text behaves like a string of (character, markup) pairs.
+
+Property theorems only.  The model of `pybtex/richtext.py` is `Model/RichText.lean` (`RT`, `mk` =
+the constructor, `build` = the object a tree of nested constructor calls denotes, one function
+per method); the reference semantics a reader has to agree with is `Spec/RichText.lean`
+(`sem` = the string of (atom, markup stack) pairs a tree denotes, `Abs` = class of the object +
+that string, and the plain list operations `Flat.*` / `Abs.*`); helper lemmas are in
+`Lemmas/RichText.lean`.
+
+`Normal` is the decidable invariant "hereditarily: no empty part, no nested `Text`, no two adjacent
+parts of the same type info"; `C08_mk_sem` shows every constructed object satisfies it and
+`C08_history` that every operation preserves it.
+-/
+import PybtexModel.Lemmas.RichText
+import PybtexModel.Gen.RichText
+
 namespace Pybtex.Props
+open Pybtex Pybtex.RT
+
+/-- every terminator of `textutils.terminators` (regenerated from /repo) is one character, and the
+white-space pattern `String.split()` uses is the one the model implements -/
+theorem C08_tables :
+    (∀ x ∈ Gen.terminators, x.length = 1) ∧ Gen.whitespacePattern = "\\s+" := by decide
+
+/-- **Construction.** The constructor (`BaseMultipartText.__init__`: drop the empty parts, unpack
+`Text` children, merge similar neighbours) does not change the string of pairs; hence the object
+built from *any* tree of nested constructor calls denotes what the tree denotes, has the class of
+the outermost call, and is in normal form. -/
+theorem C08_mk_sem :
+    (∀ ctx k ps, sem ctx (mk k ps) = sem ctx (.node k ps)) ∧
+    (∀ ctx t, sem ctx (build t) = sem ctx t) ∧
+    (∀ t, abs (build t) = abs t) ∧
+    (∀ t, Normal (build t) = true) ∧
+    (∀ k ps, (∀ p ∈ ps, Normal p = true) → Normal (mk k ps) = true) :=
+  ⟨sem_mk, fun ctx t => sem_build t ctx, abs_build, normal_build, normal_mk⟩
+
+/-- **Grouping never matters.** Associativity, dropping of empty parts, flattening of nested
+`Text`s and merging of adjacent similar texts leave the string of pairs unchanged – and because
+normal forms are unique (`C08_eq_iff_sem`) the constructor returns *the same object* (`==`) for
+any two argument lists of objects that denote the same string. -/
+theorem C08_grouping_laws :
+    -- associativity of concatenation
+    (∀ ctx a b c, sem ctx (add (add a b) c) = sem ctx (add a (add b c))) ∧
+    -- a part without characters can be dropped anywhere
+    (∀ ctx k ps e rs, len e = 0 → sem ctx (mk k (ps ++ e :: rs)) = sem ctx (mk k (ps ++ rs))) ∧
+    -- a `Text` among the arguments is the same as its parts
+    (∀ ctx k ps qs rs, sem ctx (mk k (ps ++ mk .text qs :: rs)) = sem ctx (mk k (ps ++ qs ++ rs))) ∧
+    -- two adjacent texts with the same class and parameters are the same as one
+    (∀ ctx k k' ps qs qs' rs,
+      sem ctx (mk k (ps ++ mk k' qs :: mk k' qs' :: rs)) = sem ctx (mk k (ps ++ mk k' (qs ++ qs') :: rs))) ∧
+    -- consequently: equal denotations of the arguments ⇒ equal objects
+    (∀ k ps qs, (∀ p ∈ ps, Normal p = true) → (∀ q ∈ qs, Normal q = true) →
+      semL [] ps = semL [] qs → eq (mk k ps) (mk k qs) = true) := by
+  refine ⟨?_, ?_, ?_, ?_, ?_⟩
+  · intro ctx a b c; simp [sem_add, List.append_assoc]
+  · intro ctx k ps e rs he
+    simp [sem_mk, sem, semL_append, semL, sem_nil_of_len _ e he]
+  · intro ctx k ps qs rs
+    simp [sem_mk, sem, semL_append, semL, Kind.markup, List.append_assoc]
+  · intro ctx k k' ps qs qs' rs
+    simp [sem_mk, sem, semL_append, semL, List.append_assoc]
+  · intro k ps qs hp hq h
+    rw [eq_iff]
+    apply abs_inj _ _ (normal_mk k ps hp) (normal_mk k qs hq)
+    apply abs_ext rfl
+    simp only [abs_atoms, sem_mk, sem]
+    rw [semL_ctx, h, ← semL_ctx]
+
+/-- **Equality.** `==` is total (it never raises) and, on objects (normal forms), `a == b` holds
+exactly when `a` and `b` have the same class and denote the same string of pairs.  For trees of
+constructor calls: the built objects are equal iff the trees have the same outermost class and
+the same denotation – nesting, grouping, empty parts play no role. -/
+theorem C08_eq_iff_sem :
+    (∀ a b, eq a b = true ↔ a = b) ∧
+    (∀ a b, Normal a = true → Normal b = true → (eq a b = true ↔ abs a = abs b)) ∧
+    (∀ r₁ r₂, eq (build r₁) (build r₂) = true ↔ (top r₁ = top r₂ ∧ sem [] r₁ = sem [] r₂)) := by
+  refine ⟨fun a b => eq_iff a b, ?_, ?_⟩
+  · intro a b ha hb
+    rw [eq_iff]
+    exact ⟨fun h => by rw [h], abs_inj a b ha hb⟩
+  · intro r₁ r₂
+    rw [eq_iff]
+    constructor
+    · intro h
+      have := congrArg abs h
+      rw [abs_build, abs_build] at this
+      exact ⟨congrArg Abs.top this, congrArg Abs.atoms this⟩
+    · rintro ⟨h1, h2⟩
+      apply abs_inj _ _ (normal_build r₁) (normal_build r₂)
+      rw [abs_build, abs_build]
+      exact abs_ext h1 h2
+
+/-- the hypotheses of `C08_eq_iff_sem` / `C08_grouping_laws` are satisfiable by non-trivial
+trees: two different groupings of the same text are equal objects, a different markup is not -/
+theorem C08_eq_iff_sem_nonvacuous :
+    eq (build (.node .text [.str "ab".toList, .node (.tag "em".toList) [.str "c".toList], .node (.tag "em".toList) [.str "d".toList]]))
+       (build (.node .text [.str "a".toList, .node .text [.str "b".toList, .str []],
+          .node (.tag "em".toList) [.node .text [.str "cd".toList]]])) = true ∧
+    eq (build (.node .text [.node (.tag "em".toList) [.str "c".toList]]))
+       (build (.node .text [.node (.tag "strong".toList) [.str "c".toList]])) = false := by decide +kernel
+
+/-- **Concatenation.** `a + b` denotes the concatenation (as a `Text`). -/
+theorem C08_add (a b : RT) :
+    abs (add a b) = Abs.add (abs a) (abs b) ∧ ∀ ctx, sem ctx (add a b) = sem ctx a ++ sem ctx b :=
+  ⟨abs_add a b, fun ctx => sem_add ctx a b⟩
+
+/-- **append.** The appended text is placed inside the outermost markup of the receiver
+(for a `String`/`Symbol` receiver `append` is `+`); the class of the receiver is kept. -/
+theorem C08_append (t x : RT) :
+    abs (append t x) = Abs.append (abs t) (abs x) ∧
+    ∀ ctx k ps, sem ctx (append (.node k ps) x) = sem ctx (.node k ps) ++ sem (ctx ++ k.markup) x :=
+  ⟨abs_append t x, fun ctx k ps => sem_append_node ctx k ps x⟩
+
+/-- **join.** `sep.join(parts)` denotes the parts intercalated with the separator (`str.join`). -/
+theorem C08_join (sep : RT) (parts : List RT) :
+    abs (join sep parts) = Abs.join (abs sep) (parts.map abs) ∧
+    ∀ ctx, sem ctx (join sep parts) = joinWith (sem ctx sep) (parts.map (sem ctx)) :=
+  ⟨abs_join sep parts, fun ctx => sem_join ctx sep parts⟩
+
+/-- **len / str.** `len(text)` is the number of pairs, `str(text)` their characters. -/
+theorem C08_len (t : RT) (ctx : List Markup) :
+    len t = (sem ctx t).length ∧ toStr t = Flat.toStr (sem ctx t) :=
+  ⟨(sem_length t ctx).symm, (toStr_sem t ctx).symm⟩
+
+/-- **Slicing.** For ALL integers `i j` (negative, beyond the ends, `j < i`) and for missing
+bounds, `text[i:j]` denotes Python's slice `s[i:j]` of the string of pairs, inside any markup
+context; the class is kept (the empty slice of a symbol is an empty string). -/
+theorem C08_slice (t : RT) :
+    (∀ ctx (i j : Int), sem ctx (getSlice t (some i) (some j)) = pySlice (sem ctx t) i j) ∧
+    (∀ ctx i j, sem ctx (getSlice t i j) = Flat.slice (sem ctx t) i j) ∧
+    (∀ i j, abs (getSlice t i j) = Abs.slice (abs t) i j) ∧
+    (Normal t = true → ∀ i j, Normal (getSlice t i j) = true) :=
+  ⟨fun ctx i j => sem_getSlice ctx t (some i) (some j), fun ctx i j => sem_getSlice ctx t i j,
+   abs_getSlice t, normal_getSlice t⟩
+
+/-- **Indexing.** `text[i]` raises `IndexError` exactly when `i` is out of range (as for a Python
+string) and otherwise is the one-pair slice at `i` (counted from the end for negative `i`). -/
+theorem C08_index (t : RT) (i : Int) :
+    (getIndex t i).map abs = Abs.index (abs t) i ∧
+    (getIndex t i = .error .indexError ↔ ¬(-(len t : Int) ≤ i ∧ i < (len t : Int))) := by
+  refine ⟨abs_getIndex t i, ?_⟩
+  constructor
+  · intro h hr
+    obtain ⟨r, hr', _⟩ := sem_getIndex_ok [] t i hr
+    rw [hr'] at h; cases h
+  · exact getIndex_error t i
+
+/-- **Case.** `upper()` / `lower()` map the characters pointwise, leave every markup stack and
+every symbol alone and leave the characters under `Protected` untouched; the class is kept.
+Hence they commute with slicing and with concatenation – as objects (`==`), not only as strings. -/
+theorem C08_case (t : RT) :
+    abs (upperT t) = Abs.caseMap upperC (abs t) ∧ abs (lowerT t) = Abs.caseMap lowerC (abs t) ∧
+    (Normal t = true → ∀ i j,
+      eq (upperT (getSlice t i j)) (getSlice (upperT t) i j) = true ∧
+      eq (lowerT (getSlice t i j)) (getSlice (lowerT t) i j) = true) ∧
+    (Normal t = true → ∀ u, Normal u = true →
+      eq (upperT (add t u)) (add (upperT t) (upperT u)) = true ∧
+      eq (lowerT (add t u)) (add (lowerT t) (lowerT u)) = true) := by
+  refine ⟨abs_upperT t, abs_lowerT t, ?_, ?_⟩
+  · intro hn i j
+    have h1 : abs (upperT (getSlice t i j)) = abs (getSlice (upperT t) i j) := by
+      rw [abs_upperT, abs_getSlice, abs_getSlice, abs_upperT, abs_caseMap_slice]
+    have h2 : abs (lowerT (getSlice t i j)) = abs (getSlice (lowerT t) i j) := by
+      rw [abs_lowerT, abs_getSlice, abs_getSlice, abs_lowerT, abs_caseMap_slice]
+    constructor
+    · rw [eq_iff]
+      exact abs_inj _ _ (normal_caseMap _ _ (normal_getSlice t hn i j))
+        (normal_getSlice _ (normal_caseMap _ _ hn) i j) h1
+    · rw [eq_iff]
+      exact abs_inj _ _ (normal_caseMap _ _ (normal_getSlice t hn i j))
+        (normal_getSlice _ (normal_caseMap _ _ hn) i j) h2
+  · intro hn u hu
+    have h1 : abs (upperT (add t u)) = abs (add (upperT t) (upperT u)) := by
+      rw [abs_upperT, abs_add, abs_add, abs_upperT, abs_upperT, abs_caseMap_add]
+    have h2 : abs (lowerT (add t u)) = abs (add (lowerT t) (lowerT u)) := by
+      rw [abs_lowerT, abs_add, abs_add, abs_lowerT, abs_lowerT, abs_caseMap_add]
+    constructor
+    · rw [eq_iff]
+      exact abs_inj _ _ (normal_caseMap _ _ (normal_add _ _ hn hu))
+        (normal_add _ _ (normal_caseMap _ _ hn) (normal_caseMap _ _ hu)) h1
+    · rw [eq_iff]
+      exact abs_inj _ _ (normal_caseMap _ _ (normal_add _ _ hn hu))
+        (normal_add _ _ (normal_caseMap _ _ hn) (normal_caseMap _ _ hu)) h2
+
+theorem C08_case_nonvacuous :
+    abs (upperT (build (.node .text [.str "a ".toList, .node .prot [.str "b".toList], .sym "nbsp".toList])))
+      = ⟨.multi .text, [(.ch 'A', []), (.ch ' ', []), (.ch 'b', [.prot]), (.sym "nbsp".toList, [])]⟩ := by decide +kernel
+
+/-- **capfirst.** `self[:1].upper() + self[1:]` on the string of pairs; `Protected` is left alone. -/
+theorem C08_capfirst (t : RT) : abs (capfirst t) = Abs.capfirst (abs t) := abs_capfirst t
+
+/-- **capitalize.** `self[:1].upper() + self[1:].lower()` on the string of pairs; `Protected` is
+left alone. -/
+theorem C08_capitalize (t : RT) : abs (capitalize t) = Abs.capitalize (abs t) := abs_capitalize t
+
+/-- **add_period.** A period is appended (inside the outermost markup) exactly when the text is
+non-empty and its last pair is not one of the terminating characters. -/
+theorem C08_add_period (t : RT) (h : Normal t = true) :
+    abs (addPeriod Gen.terminators (.str ['.']) t)
+      = Abs.addPeriod Gen.terminators ⟨.string, [(.ch '.', [])]⟩ (abs t) :=
+  abs_addPeriod Gen.terminators C08_tables.1 _ t h
+
+theorem C08_add_period_nonvacuous :
+    Normal (build (.node (.tag "em".toList) [.str "Done".toList])) = true ∧
+    abs (addPeriod Gen.terminators (.str ['.']) (build (.node (.tag "em".toList) [.str "Ok".toList])))
+      = ⟨.multi (.tag "em".toList), [(.ch 'O', [.tag "em".toList]), (.ch 'k', [.tag "em".toList]),
+          (.ch '.', [.tag "em".toList])]⟩ := by decide +kernel
+
+/-- **split** at a one-character separator `c` (any `keep_empty_parts`): the pieces are the list
+split of the string of pairs at the occurrences of `c` that are not under `Protected` (empty
+pieces dropped unless kept), each of the receiver's class, each in normal form; a `Symbol` and a
+`Protected` are never split.  `c.join(text.split(c))` denotes the text with the markup of the
+separators removed – in particular it has the same characters. -/
+theorem C08_split (c : Char) (t : RT) (keep : Option Bool) :
+    (split (.lit c []) t keep).map abs = Abs.split (.lit c []) (keepDefault (.lit c []) keep) (abs t) ∧
+    (Normal t = true → ∀ r ∈ split (.lit c []) t keep, Normal r = true) ∧
+    (top t ≠ .symbol ∧ top t ≠ .multi .prot →
+      sem [] (join (.str [c]) (split (.lit c []) t none))
+        = (sem [] t).map fun y => if Flat.isSep (.lit c []) y then (.ch c, []) else y) := by
+  refine ⟨abs_split_lit c t keep, fun h => normal_split t h _ keep, ?_⟩
+  intro ht
+  rw [sem_join, sem_split_lit c t none [] rfl ht]
+  simp only [keepDefault, keepF, Bool.or_true, sem, List.map_cons, List.map_nil]
+  rw [List.filter_eq_self.2 (fun _ _ => rfl)]
+  exact joinWith_splitOnP _ _ _
+
+theorem C08_split_nonvacuous :
+    (split (.lit ',' []) (build (.node .text [.str "a,".toList, .node (.tag "em".toList) [.str ",b".toList],
+        .node .prot [.str "c,d".toList]])) none).map abs
+      = [⟨.multi .text, [(.ch 'a', [])]⟩, ⟨.multi .text, []⟩,
+         ⟨.multi .text, [(.ch 'b', [.tag "em".toList]), (.ch 'c', [.prot]), (.ch ',', [.prot]), (.ch 'd', [.prot])]⟩] := by
+  decide +kernel
+
+/-- **startswith / endswith / in** are sound for the string of pairs: a positive answer means
+the text really begins / ends with / contains the characters asked for, spelled inside one and
+the same markup (matches that straddle a markup boundary are not reported – documented
+behaviour).  The only exception: the empty `String` starts and ends with `""`. -/
+theorem C08_prefix_suffix_contains (t : RT) (h : Normal t = true) (ctx : List Markup) :
+    (∀ ps, startsWith ps t = true → Flat.startsWith ps (sem ctx t) = true ∨ (t = .str [] ∧ [] ∈ ps)) ∧
+    (∀ ps, endsWith ps t = true → Flat.endsWith ps (sem ctx t) = true ∨ (t = .str [] ∧ [] ∈ ps)) ∧
+    (∀ item, item ≠ [] → contains item t = true → Flat.hasWindow item (sem ctx t) = true) :=
+  ⟨fun ps => startsWith_sound ps t ctx h, fun ps => endsWith_sound ps t ctx h,
+   fun item hi => contains_sound item hi t ctx⟩
+
+theorem C08_prefix_suffix_contains_nonvacuous :
+    startsWith ["Lo".toList] (build (.node .text [.node (.tag "em".toList) [.str "Long".toList], .str "cat".toList])) = true ∧
+    startsWith ["Longc".toList] (build (.node .text [.node (.tag "em".toList) [.str "Long".toList], .str "cat".toList])) = false ∧
+    contains "at".toList (build (.node .text [.node (.tag "em".toList) [.str "Long".toList], .str "cat".toList])) = true := by
+  decide +kernel
+
+/-- **isalpha.** True iff the text is non-empty and every pair is an alphabetic character
+(a symbol never is). -/
+theorem C08_isalpha (t : RT) (h : Normal t = true) (ctx : List Markup) :
+    isAlphaT t = Flat.isAlpha (sem ctx t) := isAlphaT_spec t ctx h
+
+theorem C08_isalpha_nonvacuous :
+    isAlphaT (build (.node .text [.str "ab".toList, .node (.tag "em".toList) [.str "C".toList]])) = true ∧
+    isAlphaT (build (.node .text [.str "ab".toList, .sym "nbsp".toList])) = false := by decide +kernel
+
+/-- **Rendering.** Rendering with the tracing backend (the public observation point) returns
+exactly the string of pairs; with `C08_mk_sem`: what is rendered depends only on the denotation
+of the tree the text was built from, never on grouping or nesting. -/
+theorem C08_render (t : RT) :
+    render traceBackend t = some (sem [] t) ∧ render traceBackend (build t) = some (sem [] t) :=
+  ⟨render_trace t, by rw [render_trace, sem_build]⟩
+
+/-- **Histories.** Any finite sequence of operations (`+` on either side, `append`, `join`,
+slices, indices – including the ones that raise –, `upper`, `lower`, `capfirst`, `capitalize`,
+`add_period`, `split` at a one-character separator followed by the choice of a piece), applied on
+top of one another to an object, yields step by step exactly the abstract values obtained by
+running the corresponding list operations on the string of pairs. -/
+theorem C08_history (t : RT) (ht : Normal t = true) (ops : List Op)
+    (hops : ∀ op ∈ ops, op.OperandsNormal = true ∧ op.Covered = true) :
+    (run Gen.terminators t ops).map (Except.map abs)
+      = Abs.run Gen.terminators (abs t) (ops.map Op.abs) :=
+  run_abs Gen.terminators C08_tables.1 ops t ht hops
+
+/-- a non-trivial history satisfying the hypotheses (with a slice whose stop precedes its start,
+an index out of range and a split): the texts after each step are
+`AB CD,E`, `B CD,`, (IndexError), `B CD,x`, `B CD`, ``, `` -/
+theorem C08_history_nonvacuous :
+    Normal (build (.node .text [.str "ab ".toList, .node (.tag "em".toList) [.str "cd,e".toList]])) = true ∧
+    ([Op.upper, .slice (some 1) (some (-1)), .index 9, .append (.str "x".toList),
+      .splitPick (.lit ',' []) none 0, .slice (some 3) (some 1), .addPeriod].all
+        fun op => op.OperandsNormal && op.Covered) = true ∧
+    (run Gen.terminators (build (.node .text [.str "ab ".toList, .node (.tag "em".toList) [.str "cd,e".toList]]))
+      [.upper, .slice (some 1) (some (-1)), .index 9, .append (.str "x".toList),
+       .splitPick (.lit ',' []) none 0, .slice (some 3) (some 1), .addPeriod]).map
+        (fun r => match r with | .ok x => some (toStr x) | .error _ => none)
+      = [some "AB CD,E".toList, some "B CD,".toList, none, some "B CD,x".toList,
+         some "B CD".toList, some [], some []] := by decide +kernel
+
 end Pybtex.Props
